@@ -247,12 +247,14 @@ FsckKeeps == [][(last = "env" /\ last' = "fsck" /\ prim.sb # <<>>) => prim'.sb =
 \* ------------------------------------------------------------------ the property's experiment
 \* zero the primary superblock and the primary descriptor blocks (meta_bg: the first-group copy of every meta group that
 \* has a prescribed backup)
-DestroyPrimary ==
+\* sbtoo = FALSE: only the descriptor blocks are lost, the primary superblock still opens
+DestroyPrimary(sbtoo) ==
    /\ Alive /\ last # "env"
    /\ saved' = prim
-   /\ prim' = [sb |-> <<>>, gd |-> IF Cur.metabg THEN [i \in 1..Len(prim.gd) |-> IF <<i - 1, 1>> \in MgLocs(Cur) THEN <<>> ELSE prim.gd[i]]
+   /\ prim' = [sb |-> IF sbtoo THEN <<>> ELSE prim.sb,
+               gd |-> IF Cur.metabg THEN [i \in 1..Len(prim.gd) |-> IF <<i - 1, 1>> \in MgLocs(Cur) THEN <<>> ELSE prim.gd[i]]
                                    ELSE <<>>]
-   /\ rec' = "destroyed" /\ UNCHANGED <<sbk, gdk, mgk, last, steps, geo>>
+   /\ rec' = (IF sbtoo THEN "destroyed" ELSE "gd_destroyed") /\ UNCHANGED <<sbk, gdk, mgk, last, steps, geo>>
 \* e2fsck -b <first block of group g> -B <blocksize>
 RecoverFrom(g) ==
    /\ rec = "destroyed" /\ g \in SbLocs(saved.sb[1])
@@ -266,6 +268,13 @@ PlainObliged(s) == geo.bpg = DefaultBpg(geo.bs) /\ SbLocs(s) # {}
 RecoverPlain ==
    /\ rec = "destroyed" /\ PlainObliged(saved.sb[1])
    /\ LET F == Search(saved.sb[1], FALSE) IN
+        IF F = {} THEN prim' = prim ELSE \E g \in F : prim' = ReadFrom(g, prim.gd)
+   /\ rec' = "recovered" /\ UNCHANGED <<sbk, gdk, mgk, last, steps, saved, geo>>
+\* plain e2fsck -fy after only the primary descriptors were lost: "Group descriptors look bad... trying backup blocks...":
+\* the same search, told the block and group size by the primary superblock
+RecoverPlainGd ==
+   /\ rec = "gd_destroyed" /\ PlainObliged(saved.sb[1])
+   /\ LET F == Search(saved.sb[1], TRUE) IN
         IF F = {} THEN prim' = prim ELSE \E g \in F : prim' = ReadFrom(g, prim.gd)
    /\ rec' = "recovered" /\ UNCHANGED <<sbk, gdk, mgk, last, steps, saved, geo>>
 
@@ -290,6 +299,6 @@ Ss2Shape == Alive /\ Cur.ss2 =>
                  /\ Cardinality(SbLocs(Cur)) <= 2
 \* recovery from ANY prescribed location gives back the superblock fields and table locations of the lost primary
 InvRecover == rec = "recovered" => prim = saved
-TypeOK == /\ last \in {"mkfs", "resize", "tune", "fsck", "env"} /\ rec \in {"blank", "none", "destroyed", "recovered"}
+TypeOK == /\ last \in {"mkfs", "resize", "tune", "fsck", "env"} /\ rec \in {"blank", "none", "destroyed", "gd_destroyed", "recovered"}
           /\ steps \in 0..10 /\ (geo = NoGeo \/ GeoOK(geo))
 =============================================================================
